@@ -241,6 +241,75 @@ class ContractSet:
             out.update(self.fields.get(c.qualname, {}))
         return out
 
+    def conforms(self, I, ref):
+        """every field the sidecar declares for the object's class exists and holds a value of the declared type
+        (the class invariant that contracts assume for `obj:` parameters; constructors are verified to establish it)"""
+        o = I.hobj(ref)
+        terms = []
+        for f, ft in self.class_fields(o.cls).items():
+            if f not in o.fields:
+                return z3.BoolVal(False)
+            terms.append(self.type_ok(I, o.fields[f], ft))
+        return z3.And(terms) if terms else z3.BoolVal(True)
+
+    def type_ok(self, I, v, typ):
+        typ = typ.strip()
+        if isinstance(v, VUnion):
+            return z3.And([z3.Implies(g, self.type_ok(I, a, typ)) for g, a in v.alts])
+        if typ.startswith("opt:"):
+            return z3.BoolVal(True) if isinstance(v, VNone) else self.type_ok(I, v, typ[4:])
+        if typ.startswith("union:"):
+            return z3.Or([self.type_ok(I, v, p) for p in typ[6:].split("|")])
+        if typ == "none":
+            return z3.BoolVal(isinstance(v, VNone))
+        if typ in ("int", "nat") or typ.startswith("int["):
+            if not isinstance(v, (VInt, VBool)):
+                return z3.BoolVal(False)
+            if isinstance(v, VBool):
+                v = ops._to_intlike(I, v)
+            lo, hi = (0, None) if typ == "nat" else (None, None)
+            if typ.startswith("int["):
+                lo, hi = [int(x, 0) for x in typ[4:-1].split(",")]
+            t = []
+            if lo is not None:
+                t.append(ops.int_cmp(">=", v, mkint(lo)).term())
+            if hi is not None:
+                t.append(ops.int_cmp("<=", v, mkint(hi)).term())
+            return z3.And(t) if t else z3.BoolVal(True)
+        if typ == "byte":
+            return self.type_ok(I, v, "int[0,255]")
+        if typ == "bool":
+            return z3.BoolVal(isinstance(v, VBool))
+        if typ == "float":
+            return z3.BoolVal(isinstance(v, (VFloat, VInt)) and not isinstance(v, VBool))
+        if typ == "str":
+            return z3.BoolVal(isinstance(v, VStr))
+        if typ.split("[")[0] in ("bytes", "bytearray", "memoryview"):
+            if not isinstance(v, VBytes) or v.kind != typ.split("[")[0]:
+                return z3.BoolVal(False)
+            if "[" in typ:
+                n = v.length()
+                want = int(typ[typ.index("[") + 1:-1])
+                return z3.BoolVal(n == want) if isinstance(n, int) else (n == want)
+            return z3.BoolVal(True)
+        if typ.startswith("enum:"):
+            cls = I.class_by_qual(typ[5:])
+            return z3.BoolVal(isinstance(v, VInt) and v.enum is not None and any(kc is cls for kc in v.enum.mro()))
+        if typ.startswith(("obj:", "sub:")):
+            cls = I.class_by_qual(typ[4:])
+            return z3.BoolVal(isinstance(v, VRef) and I.hobj(v).kind == "inst" and any(kc is cls for kc in I.hobj(v).cls.mro()))
+        if typ.startswith(("set:", "symset")):
+            return z3.BoolVal(isinstance(v, VRef) and I.hobj(v).kind in ("set", "symset") or isinstance(v, VRef) and I.hobj(v).meta.get("tag") == "pset")
+        if typ.startswith("symdict:") or typ.startswith("dict"):
+            return z3.BoolVal(isinstance(v, VRef) and I.hobj(v).kind in ("dict", "symdict"))
+        if typ.startswith("list:"):
+            return z3.BoolVal(isinstance(v, VRef) and I.hobj(v).kind in ("list", "symlist"))
+        if typ.startswith("tuple:"):
+            return z3.BoolVal(isinstance(v, VTuple))
+        if typ.startswith("ext:"):
+            return z3.BoolVal(isinstance(v, VRef))
+        raise Unsupported(f"conforms: type {typ}")
+
     def make(self, I: Interp, typ: str, name: str, depth=0):
         P = I.path
         typ = typ.strip()
